@@ -419,6 +419,18 @@ def case_info(col, p):
                     if not abs(got / ex - 1) <= 2e-3:
                         col.violation('C19:%s:closed_form' % nm, info, {'got': float(got), 'exact': float(ex)})
                     col.observe(nm, abs(got / ex - 1) / 2e-3)
+                # the two-value form: (adjusted, unadjusted) in this order; the unadjusted ones use H where the adjusted use the Godambe matrix
+                w2 = Godambe.Wald_stat(f, [20], bl, list(p0), data, nested, full, multinom=multinom, eps=eps, adj_and_org=True)
+                s2 = Godambe.score_stat(f, [20], bl, list(p0), data, nested, multinom=multinom, eps=eps, adj_and_org=True)
+                col.tick(transitions=2)
+                for nm, pair, ex_adj, ex_org in (('Wald_stat', w2, dlt * Gn * dlt, dlt * Hn * dlt), ('score_stat', s2, cU ** 2 / Jn, cU ** 2 / Hn)):
+                    try:
+                        g_adj, g_org = float(pair[0]), float(pair[1])
+                    except Exception:
+                        col.violation('C19:%s:adj_and_org' % nm, info, {'got': repr(pair)[:100]})
+                        continue
+                    if not (abs(g_adj / ex_adj - 1) <= 2e-3 and abs(g_org / ex_org - 1) <= 2e-3):
+                        col.violation('C19:%s:adj_and_org' % nm, info, {'got': [g_adj, g_org], 'exact': [float(ex_adj), float(ex_org)]})
             else:
                 tol = 1e-12 * max(1.0, float(np.linalg.cond(Jp))) if len(pe) <= 3 else 1e-11
                 if not np.allclose(vals, base_vals, rtol=tol, atol=tol):
@@ -528,6 +540,10 @@ def case_history(col, p):
     OPS['Wald(fA,pA2,2 boots)'] = lambda: Godambe.Wald_stat(fA, [20], boots[:2], pA2, data, [2], [25.0, 28.0, 10.0], multinom=False)
     OPS['score(fB,pB,5 boots)'] = lambda: Godambe.score_stat(fB, [20], boots5, pB, data, [2], multinom=False)
     OPS['Wald(fA,pA2,5 boots)'] = lambda: Godambe.Wald_stat(fA, [20], boots5, pA2, data, [2], [25.0, 28.0, 10.0], multinom=False)
+    # the same model, parameters and grid against the folded data (the model spectra cached for one must not be handed to the other)
+    dataf = data.fold()
+    OPS['FIM(fA,folded data)'] = lambda: Godambe.FIM_uncert(fA, [20], pA, dataf, multinom=False)
+    OPS['GIM(fA,folded data)'] = lambda: Godambe.GIM_uncert(fA, [20], [b.fold() for b in boots], pA, dataf, multinom=False)
     names = list(OPS)
     fresh = {}
     for nm in names:
